@@ -46,6 +46,10 @@ CLAIMED = {
           "Generated-input search over round trips: writer must not fail, output well-formed, re-read logs nothing above INFO, parameters equal, every element written, snapshots equal at the reference's probe times (6 significant digits), written times exact when representable and within one unit and order-preserving otherwise. Special-value overrides are built on purpose.",
           "Trusted: snapshot equality is judged through ttconv's own ISD on both documents (the ISD is checked independently by C01/C03/C13). Element xml:id and numeric values outside [1e-4,1e5] are outside the comparison.",
           "DESIGN.md C05"),
+  "C10": ("Hypothesis SRT files from a cue grammar with the expected cue model built alongside; exhaustive ms x fps enumeration for the frame composition law; writer output round trip through a strict parser",
+          "Generated-input search: one P per cue, exact rational times (type and value), lines, per-character formatting for both tag syntaxes; all 1000 ms values x 5 rates x 4 bases enumerated for the composed frames output; the SRT writer's output over styled documents is re-read and compared with what a strict parser reads.",
+          "Trusted: vt/gen_srt.py expectations (self-tested), vt/cueparse.py. Short brace tags {b} accepted under either reading; line-edge spaces free.",
+          "DESIGN.md C10"),
 }
 NOT_APPLICABLE = {}
 
